@@ -43,6 +43,10 @@ type c11Input struct {
 	SrcPkgName string            `json:"srcPkgName"`
 	SrcPkgPath string            `json:"srcPkgPath"`
 	Exported   bool              `json:"exported"`
+	// a scratch module (relative path -> content, "<MOD>" = its root): the case then goes through the CLI – the
+	// real loader finds the interface and binds the variables; `iface.file` is the file that declares it
+	Module map[string]string `json:"module,omitempty"`
+	PkgArg string            `json:"pkgArg,omitempty"`
 }
 
 type c11 struct{}
@@ -105,7 +109,116 @@ func (c11) Generate(c *Ctx) []any {
 		out = append(out, in)
 	}
 	_ = rand.Int
+	nb := c.Budget(24, 240)
+	for i := 0; i < nb; i++ {
+		out = append(out, genC11Bind(c.Rng, i))
+	}
 	return out
+}
+
+const c11Probe = "// Code generated by probe. DO NOT EDIT.\nPKG {{.PkgName}}\n{{range .Interfaces}}STRUCT {{.StructName}}\n{{end}}"
+
+// genC11Bind: the variables as the real loader binds them. A package of several files (one interface each);
+// some carry //line directives (generated parsers), a generated-code header, build constraints that exclude
+// them, or are test files; the probed interface lives in one of the ordinary ones.
+func genC11Bind(r *rand.Rand, idx int) c11Input {
+	mod := fmt.Sprintf("/CWD/b%d", idx)
+	pkgDir := pick(r, []string{"svc", "a/b", "x"})
+	pkgName := pick(r, []string{"svc", "store", "parser"})
+	names := []string{"Alpha", "beta", "Gamma", "Lexer"}
+	files := map[string]string{"go.mod": "module example.com/m\n\ngo 1.23\n", "probe.templ": c11Probe}
+	type fl struct{ name, iface string }
+	var fs []fl
+	for k, n := range names {
+		fn := []string{"a.go", "b.go", "zz_gen.go", "lexer.go"}[k]
+		head := ""
+		switch {
+		case fn == "zz_gen.go":
+			head = "// Code generated by protoc-gen-go. DO NOT EDIT.\n\n"
+		case fn == "lexer.go" && idx%2 == 0:
+			// a position directive in front of the package clause, as goyacc / ragel output has
+			head = "//line ../grammar/expr.y:2\n"
+		}
+		body := fmt.Sprintf("type %s interface{ M%d(x int) error }\n", n, k)
+		if fn == "b.go" && idx%3 == 0 {
+			body = "//line other/place.y:40\n" + body
+		}
+		files[pkgDir+"/"+fn] = head + "package " + pkgName + "\n\n" + body
+		fs = append(fs, fl{fn, n})
+	}
+	files[pkgDir+"/skip_test.go"] = "package " + pkgName + "\n\ntype InTest interface{ T() }\n"
+	files[pkgDir+"/ignored.go"] = "//go:build ignore\n\npackage " + pkgName + "\n\ntype Alpha interface{ Other() }\n"
+	files["grammar/expr.y"] = "%%\n"
+	pr := fs[r.Intn(len(fs))]
+	in := c11Input{Values: map[string]string{}, Cwd: mod, SrcPkgName: pkgName, SrcPkgPath: "example.com/m/" + pkgDir,
+		ConfigFile: mod + "/.mockery.yml", Template: "file://" + mod + "/probe.templ", Module: files, PkgArg: "example.com/m/" + pkgDir,
+		Iface: &c11Iface{Name: pr.iface, File: mod + "/" + pkgDir + "/" + pr.name}, Exported: ast.IsExported(pr.iface)}
+	in.Values["dir"] = pick(r, []string{"{{.InterfaceDir}}/mocks", "{{.ConfigDir}}/out/{{.SrcPackageName}}", "{{ dir .InterfaceFile }}/m"})
+	in.Values["filename"] = pick(r, []string{"{{.InterfaceName}}.probe", "{{ .InterfaceFile | base | trimSuffix \".go\" }}_{{.InterfaceName}}.probe", "{{.StructName}}.probe"})
+	in.Values["pkgname"] = pick(r, []string{"{{.SrcPackageName}}_x", "p_{{ .InterfaceName | lower }}", "{{ base .InterfaceDir }}"})
+	in.Values["structname"] = pick(r, []string{"{{.Mock}}{{.InterfaceName}}", "S_{{ base .InterfaceFile }}_{{ .InterfaceDirRelative | replaceAll \"/\" \"_\" }}", "S_{{ replaceAll \"/\" \"_\" .SrcPackagePath }}"})
+	in.Values["template-schema"] = "none.schema.json"
+	return in
+}
+
+// c11RunCLI: the same question asked of the whole program
+func c11RunCLI(c *Ctx, in *c11Input, realCwd string) (res c11Result, panicked string, hung bool) {
+	mod := in.Cwd
+	os.RemoveAll(mod)
+	files := map[string]string{}
+	for k, v := range in.Module {
+		files[k] = strings.ReplaceAll(v, "<MOD>", mod)
+	}
+	var cfg strings.Builder
+	fmt.Fprintf(&cfg, "template: %q\nrequire-template-schema-exists: false\nformatter: noop\nforce-file-write: true\n", strings.ReplaceAll(in.Template, "/CWD", realCwd))
+	for _, k := range c11Params {
+		fmt.Fprintf(&cfg, "%s: %q\n", k, in.Values[k])
+	}
+	fmt.Fprintf(&cfg, "packages:\n  %s:\n    interfaces:\n      %s:\n", in.PkgArg, in.Iface.Name)
+	files[".mockery.yml"] = cfg.String()
+	if err := writeFiles(mod, files); err != nil {
+		res.err = err
+		return
+	}
+	defer os.RemoveAll(mod)
+	before := treeHashes(mod)
+	r := c.runMockery(mod, nil, nil)
+	if r.Panicked {
+		return res, lastLines(r.Stderr, 4), false
+	}
+	if r.TimedOut {
+		return res, "", true
+	}
+	if r.Exit != 0 {
+		if strings.Contains(r.Stderr, "infinite loop") {
+			res.err = config.ErrInfiniteLoop
+		} else {
+			res.err = fmt.Errorf("mockery failed: %s", lastLines(r.Stderr, 2))
+		}
+		return
+	}
+	after := treeHashes(mod)
+	var created []string
+	for _, k := range sortedKeys(after) {
+		if _, ok := before[k]; !ok && strings.HasSuffix(k, ".probe") {
+			created = append(created, k)
+		}
+	}
+	if len(created) != 1 {
+		res.err = fmt.Errorf("expected one new file, found %v", created)
+		return
+	}
+	b, _ := os.ReadFile(filepath.Join(mod, created[0]))
+	res.vals = map[string]string{"dir": filepath.Dir(filepath.Join(mod, created[0])), "filename": filepath.Base(created[0]), "template-schema": in.Values["template-schema"]}
+	for _, l := range strings.Split(string(b), "\n") {
+		if v, ok := strings.CutPrefix(l, "PKG "); ok {
+			res.vals["pkgname"] = v
+		}
+		if v, ok := strings.CutPrefix(l, "STRUCT "); ok {
+			res.vals["structname"] = v
+		}
+	}
+	return
 }
 
 type c11Result struct {
@@ -219,7 +332,14 @@ func (c11) Run(c *Ctx, raw json.RawMessage) Case {
 		in.Iface = &c11Iface{Name: in.Iface.Name, File: sub(in.Iface.File)}
 	}
 	_ = model
-	res, panicked, hung := c11Run(&in)
+	var res c11Result
+	var panicked string
+	var hung bool
+	if in.Module != nil {
+		res, panicked, hung = c11RunCLI(c, &in, realCwd)
+	} else {
+		res, panicked, hung = c11Run(&in)
+	}
 	for k, v := range res.vals {
 		res.vals[k] = unsub(v)
 	}
@@ -232,6 +352,9 @@ func (c11) Run(c *Ctx, raw json.RawMessage) Case {
 	}
 	var impl map[string]any
 	tags := []string{}
+	if in.Module != nil {
+		tags = append(tags, "cli-bind")
+	}
 	if res.err != nil {
 		if errors.Is(res.err, config.ErrInfiniteLoop) {
 			impl = map[string]any{"error": "infinite-loop"}
